@@ -12,7 +12,9 @@ subprocess.run(["git", "-C", "/repo", "worktree", "remove", "--force", scratch],
 subprocess.run(["git", "-C", "/repo", "worktree", "add", "-q", "--detach", scratch, "HEAD"], check=True)
 res = {}
 def run_demo():
-    p = subprocess.run(["/venv/bin/python", demo], cwd=scratch, capture_output=True, text=True, env={**os.environ, "PYTHONPATH": scratch}, timeout=900)
+    local = os.path.join(scratch, "_demo_under_test.py")
+    shutil.copy(demo, local)  # the script's own directory is sys.path[0]: it must live in the tree under test
+    p = subprocess.run(["/venv/bin/python", local], cwd=scratch, capture_output=True, text=True, env={**os.environ, "PYTHONPATH": scratch}, timeout=900)
     return p.returncode, (p.stdout + p.stderr)[-600:]
 try:
     res["demo_clean_rc"], res["demo_clean_tail"] = run_demo()
